@@ -15,6 +15,8 @@ MATCHERS = {}
 def regen():
     from translate import named, strhelpers, parsersrc, convstr
     named.generate()
+    from translate import hexsrc
+    hexsrc.generate()           # CmGen/HexSrc.lean: hex_to_rgb, the number-token pattern and _extract_number_tokens as they read now (CmProps/C07hex.lean)
     convstr.generate()          # CmGen/ConvStr.lean: the input parsing of hsl_to_rgb as it reads now (CmProps/C07conv.lean)
     parsersrc.generate()        # CmGen/ParserSrc.lean: the string branch of parse_color_to_rgb as it reads now (CmProps/C07parse.lean)
     strhelpers.generate()       # CmGen/StrHelpers.lean: the parser's string-to-number helpers as they read now (CmProps/C07tie.lean)
